@@ -141,16 +141,89 @@ def _size_dict_of(spec):
     return sd
 
 
-def _dtype(v, np):
+def _is_lazy(v):
+    return type(v).__module__.startswith("autoray.lazy")
+
+
+def _materialise(v):
+    """a lazy array with concrete leaves -> its value; with symbolic Variables -> None"""
+    if _is_lazy(v):
+        try:
+            m = v.compute()
+        except Exception:
+            return None
+        return None if _is_lazy(m) else m
+    return v
+
+
+def _kind1(v, np):
+    if _is_lazy(v):
+        return "lazy"
+    if isinstance(v, (np.ndarray, np.generic)):
+        return "numpy"
+    if isinstance(v, (int, float, complex)):
+        return "pyscalar"
+    return "%s.%s" % (type(v).__module__, type(v).__name__)
+
+
+def _desc(v, np):
+    """(kind, dtype, shape) of a result as the caller sees it (before any materialisation)"""
+    pre = ""
     if isinstance(v, tuple):
-        return "strip:" + str(np.asarray(v[0]).dtype)
-    return str(np.asarray(v).dtype)
+        pre, v = "strip:", v[0]
+    try:
+        shape = tuple(int(d) for d in getattr(v, "shape", ()))
+    except Exception:
+        shape = None
+    m = _materialise(v)
+    if m is None:
+        dt = "symbolic"
+    else:
+        dt = str(np.asarray(m).dtype)
+    return (pre + _kind1(v, np), pre + dt, shape)
+
+
+def _dtype(v, np):
+    return _desc(v, np)[1]
 
 
 def _tolist(v, np):
     if isinstance(v, tuple):
-        return ("strip", np.asarray(v[0]).tolist(), float(v[1]))
-    return np.asarray(v).tolist()
+        m, e = _materialise(v[0]), _materialise(v[1])
+        if m is None or e is None:
+            return "symbolic"
+        mm = _plain(np.asarray(m), np)
+        if isinstance(mm, str):
+            return mm
+        try:
+            return ("strip", mm, float(e))
+        except Exception:
+            return "strip with a non-numeric exponent %s" % type(e).__name__
+    m = _materialise(v)
+    if m is None:
+        return "symbolic"
+    return _plain(np.asarray(m), np)
+
+
+def _plain(a, np):
+    """numbers only; anything else (e.g. an object array of unevaluated symbolic nodes) is described"""
+    if a.dtype == object:
+        kinds = sorted({type(x).__name__ for x in a.ravel().tolist()})
+        if any(k not in ("int", "float") for k in kinds):
+            return "object-array of %s, shape %r" % ("/".join(kinds), tuple(a.shape))
+    return a.tolist()
+
+
+def _bk(arrays, backend):
+    """present the integer arrays to cotengra through another array library"""
+    if backend in (None, "numpy"):
+        return list(arrays)
+    import autoray as ar
+    if backend == "lazy":
+        return [ar.lazy.array(x) for x in arrays]
+    if backend == "lazyvar":
+        return [ar.lazy.Variable(tuple(x.shape), backend="numpy") for x in arrays]
+    raise ValueError(backend)
 
 
 def _aslists(x):
@@ -192,6 +265,8 @@ def exec_sequence(specs, clear=True):
                 kwargs = {k: _resolve(v, spec, ctg, np) for k, v in spec.get("kwargs", {}).items()}
                 opt = _resolve(spec.get("optimize", "auto"), spec, ctg, np)
                 cache = spec.get("cache", True)
+                bk1 = spec.get("backend", "numpy")
+                bk2 = spec.get("backend2", bk1)
                 inputs, output = spec.get("inputs"), spec.get("output")
                 if spec.get("lists"):
                     inputs = _aslists(inputs)
@@ -205,16 +280,19 @@ def exec_sequence(specs, clear=True):
                 elif spec.get("shapes") is not None:
                     sizes["shapes"] = spec["shapes"]
                 if api == "array_contract":
-                    v = ctg.array_contract(arrays, inputs, output, optimize=opt, cache_expression=cache, **ck, **kwargs)
+                    v = ctg.array_contract(_bk(arrays, bk1), inputs, output, optimize=opt, cache_expression=cache,
+                                           **ck, **kwargs)
                     res["value"] = _tolist(v, np)
                     res["dtype"] = _dtype(v, np)
+                    res["desc"] = [_desc(v, np)]
                 elif api == "ncon":
                     v = ctg.ncon(arrays, inputs, optimize=opt, cache_expression=cache, **ck, **kwargs)
                     res["value"] = _tolist(v, np)
                 elif api == "einsum":
-                    v = ctg.einsum(spec["eq"], *arrays, optimize=opt, cache_expression=cache, **kwargs)
+                    v = ctg.einsum(spec["eq"], *_bk(arrays, bk1), optimize=opt, cache_expression=cache, **kwargs)
                     res["value"] = _tolist(v, np)
                     res["dtype"] = _dtype(v, np)
+                    res["desc"] = [_desc(v, np)]
                 elif api in ("expr", "einsum_expr"):
                     if api == "expr":
                         e = ctg.array_contract_expression(inputs, output, optimize=opt, cache=cache, **sizes, **ck, **kwargs)
@@ -237,12 +315,16 @@ def exec_sequence(specs, clear=True):
                     res["obj"] = idx
                     # snapshot of the object's state before / after calling it (frame hypothesis)
                     snap0 = _snapshot(e)
-                    v = e(*call_arrays)
+                    v = e(*_bk(call_arrays, bk1))
                     res["value"] = _tolist(v, np)
                     res["dtype"] = _dtype(v, np)
+                    res["desc"] = [_desc(v, np)]
                     if call_arrays2:
-                        res["value2"] = _tolist(e(*call_arrays2), np)
-                        res["value3"] = _tolist(e(*call_arrays), np)
+                        v2 = e(*_bk(call_arrays2, bk2))
+                        v3 = e(*_bk(call_arrays, bk1))
+                        res["value2"] = _tolist(v2, np)
+                        res["value3"] = _tolist(v3, np)
+                        res["desc"] += [_desc(v2, np), _desc(v3, np)]
                     snap1 = _snapshot(e)
                     res["frame"] = (snap0 is None) or _snap_same(snap0, snap1)
                     res["kind"] = type(e).__name__
@@ -276,27 +358,35 @@ def exec_sequence(specs, clear=True):
     return out
 
 
+def _freeze(v):
+    """a comparable picture of a slot value (containers by content, so an in-place update shows)"""
+    if isinstance(v, dict):
+        return ("dict", tuple(sorted((repr(k), _freeze(x)) for k, x in v.items())))
+    if isinstance(v, (list, set)):
+        return (type(v).__name__, tuple(_freeze(x) for x in (sorted(v, key=repr) if isinstance(v, set) else v)))
+    if isinstance(v, (tuple, frozenset, str, int, float, bool, type(None))):
+        return ("val", v)
+    return ("obj", id(v))
+
+
 def _snapshot(e):
-    """the state of an expression object that a call could write to"""
+    """the state of an expression object that a call could write to: EVERY slot / instance attribute"""
     tn = type(e).__name__
     if tn == "Contractor":
-        return ("Contractor", e.contractions, tuple(getattr(e, s) for s in
-                                                     ("strip_exponent", "check_zero", "implementation", "backend", "progbar")))
+        names = []
+        for k in type(e).__mro__:
+            for sl in getattr(k, "__slots__", ()):
+                if sl != "__weakref__" and sl not in names:
+                    names.append(sl)
+        names += [a for a in getattr(e, "__dict__", {}) if a not in names]
+        return ("Contractor", tuple((n, _freeze(getattr(e, n, "<unset>"))) for n in names))
     if tn == "function" and e.__closure__ is not None:
-        cells = []
-        for c in e.__closure__:
-            v = c.cell_contents
-            cells.append(v if isinstance(v, (tuple, str, int, bool, type(None))) else id(v))
-        return ("function", tuple(cells))
+        return ("function", tuple(_freeze(c.cell_contents) for c in e.__closure__))
     return None          # autojit / Via / Variadic wrappers: judged by the values only
 
 
 def _snap_same(a, b):
-    if a[0] != b[0]:
-        return False
-    if a[0] == "Contractor":
-        return a[1] is b[1] and a[1] == b[1] and all(x is y or x == y for x, y in zip(a[2], b[2]))
-    return a[1] == b[1]
+    return a == b
 
 
 def worker_main():
@@ -352,7 +442,22 @@ def expected_value(spec, arrays, oracle, np):
     return ref
 
 
+def _same_value(a, b, np):
+    """the same call with caching on and off: identical integer results, strip_exponent pairs to 1e-9"""
+    if isinstance(a, tuple) and a and a[0] == "strip":
+        if not (isinstance(b, tuple) and b and b[0] == "strip"):
+            return False
+        x = np.asarray(a[1], dtype=float) * 10.0 ** a[2]
+        y = np.asarray(b[1], dtype=float) * 10.0 ** b[2]
+        return x.shape == y.shape and bool(np.allclose(x, y, rtol=1e-9, atol=0))
+    return a == b
+
+
 def value_matches(val, ref, oracle, np):
+    if val == "symbolic":          # traced with lazy Variables: there is no value; the shape is judged
+        return True
+    if isinstance(val, str):        # not numbers at all
+        return False
     if isinstance(val, tuple) and val and val[0] == "strip":
         m = np.asarray(val[1], dtype=float) * 10.0 ** val[2]
         r = np.asarray(ref.astype(float)) if hasattr(ref, "astype") else np.asarray(ref, dtype=float)
@@ -453,6 +558,27 @@ def pools():
             mexp += [[(a, "expr"), (b, "expr"), (a, "expr")], [(a, "path"), (b, "expr"), (a, "tree_struct"), (b, "path")],
                      [(b, "tree_struct"), (a, "expr"), (b, "expr")]]
     P["multichar-labels"] = (mc, ["expr", "path", "tree_struct", "array_contract"], mexp)
+    # ONE cache key, several array libraries: numpy arrays, autoray lazy arrays (computed afterwards) and
+    # autoray lazy Variables (symbolic tracing: type and shape only).  The key does not contain the
+    # backend, so the cached expression is shared: it must behave as a fresh one for every library.
+    bm = []
+    groups = []
+    for base, eq in ((B3, "ab,bc,cd->ad"), (dict(inputs=B2["inputs"], output=("c", "a"), shapes=B2["shapes"]), "ab,bc->ca")):
+        for kw in ({}, {"prefer_einsum": True}, {"implementation": "autoray"}, {"strip_exponent": True}):
+            g = {}
+            for bk, bk2 in (("numpy", "lazy"), ("lazy", "numpy"), ("lazyvar", "numpy")):
+                g[bk] = len(bm)
+                bm.append(var(base, eq=eq, kwargs=kw, backend=bk, backend2=bk2))
+            groups.append(g)
+    bexp = []
+    for g in groups:
+        n, l, v = g["numpy"], g["lazy"], g["lazyvar"]
+        for api in ("einsum", "array_contract", "expr", "einsum_expr"):
+            for sq in ([v, n], [l, n], [n, l], [n, v], [n, l, n], [l, n, l], [v, n, v, l]):
+                bexp.append([(m, api) for m in sq])
+        bexp += [[(v, "einsum"), (n, "einsum_expr")], [(l, "expr"), (n, "array_contract")],
+                 [(v, "array_contract"), (n, "einsum"), (l, "einsum")]]
+    P["backend-mix"] = (bm, ["einsum", "array_contract", "expr", "einsum_expr"], bexp)
     P["kwargs-einsum"] = ([dict(eq="ab,bc,cd->ad", shapes=B3["shapes"], kwargs=k) for k in kws],
                           ["einsum", "einsum_expr"])
     P["canonicalize"] = ([var(B2, canonicalize=True), var(B2, canonicalize=False),
@@ -659,15 +785,35 @@ def judge_sequence(ctx, pool, specs, results, oracle, np, where, known_key=None)
                 elif not value_matches(res["value3"], ref, oracle, np):
                     bad = "expression called a third time on the first arrays gives %r, want %r" % (
                         res["value3"], ref.tolist())
-            if bad is None and "dtype" in res and not res["dtype"].startswith("strip"):
+            if bad is None and res.get("desc"):
+                bks = [spec.get("backend", "numpy"), spec.get("backend2", spec.get("backend", "numpy")),
+                       spec.get("backend", "numpy")]
+                refs = [ref, expected_value(spec, spec["arrays2"], oracle, np) if len(res["desc"]) > 1 else None, ref]
+                for (kind, dt, shape), bk, rf in zip(res["desc"], bks, refs):
+                    want_kind = "numpy" if bk == "numpy" else "lazy"
+                    k = kind.replace("strip:", "")
+                    if not (k == want_kind or (want_kind == "numpy" and k == "pyscalar")):
+                        bad = "%s arrays in, a %s result out (dtype %s): expected a %s result" % (bk, kind, dt, want_kind)
+                        break
+                    if shape is not None and rf is not None and tuple(shape) != tuple(rf.shape):
+                        bad = "result shape %r, expected %r" % (shape, tuple(rf.shape))
+                        break
+            if bad is None and "dtype" in res and not res["dtype"].startswith("strip") and res["dtype"] != "symbolic":
                 custom = spec.get("kwargs", {}).get("implementation") in ("@impl_tuple", "@impl_list")
                 multi = (len(spec["inputs"]) if spec.get("inputs") is not None else spec["eq"].count(",") + 1) > 1
                 want_dt = "float64" if (custom and multi) else "int64"
                 if res["dtype"] != want_dt:
                     bad = "result dtype %s, expected %s (%s user-supplied implementation)" % (
                         res["dtype"], want_dt, "with the" if custom else "without a")
-            if bad is None and res.get("frame") is False:
-                bad = "calling the expression changed its state (contractions / option slots / closure cells)"
+            if res.get("frame") is False and not getattr(ctx, "_frame_reported", False):
+                # the `frame` premise of C13_expression_is_pure is broken: a broken correspondence, not yet a
+                # failing input -- the sequences (backend-mix, kwargs ...) decide whether it is visible
+                ctx._frame_reported = True
+                ctx.fail("calling a cached expression wrote to the object (a slot / closure cell changed): the "
+                         "`frame` premise of C13_expression_is_pure does not hold for this source",
+                         {"correspondence": "state snapshot of the expression object around its calls",
+                          "pool": pool, "call": {k: v for k, v in spec.items() if k not in ("arrays", "arrays2")},
+                          "object": res.get("kind")}, found_input=False)
             if bad is None and "obj" in res:
                 cls = member_class({k: v for k, v in spec.items() if k not in ("api",)}, api)
                 prev = seen_obj.get(res["obj"])
@@ -1214,7 +1360,8 @@ def run(ctx):
     info = None
     coq_ok = False
     try:
-        text, info = cachekey.translate(open(src_path, encoding="utf-8").read())
+        text, info = cachekey.translate(open(src_path, encoding="utf-8").read(),
+                                        open(os.path.join(REPO, "cotengra", "contract.py"), encoding="utf-8").read())
         os.makedirs(os.path.dirname(gen_path), exist_ok=True)
         old = open(gen_path).read() if os.path.exists(gen_path) else None
         if old != text:
@@ -1306,6 +1453,9 @@ def run(ctx):
                         ctx.count("feature:path_then_option_free_expression")
                     if ma == mb and ab == "path" and aa in ("expr", "einsum_expr"):
                         ctx.count("feature:option_free_expression_then_path")
+                    if pname == "backend-mix" and members[ma].get("backend") != members[mb].get("backend"):
+                        ctx.count("feature:backend_switch_on_one_cache_key:%s->%s" % (
+                            members[ma]["backend"], members[mb]["backend"]))
                     if pname == "multichar-labels" and ma != mb and aa == ab:
                         ctx.count("feature:multichar_joined_string_collision_pair")
             else:
@@ -1323,14 +1473,16 @@ def run(ctx):
                         ctx.count("feature:plain_call_after_unhashable_option")
                     if _unh(a) != _unh(b) and members[a].get("kwargs") and members[b].get("kwargs"):
                         ctx.count("feature:unhashable_next_to_hashable_form")
+            specs_on = [instantiate(members[m], api, rng, np, cache=True) for m, api in zip(sq, apis_here)]
+            # constants pool: the alternative constant
+            for s in specs_on:
+                if s.get("alt_constant"):
+                    for i in s["constants"]:
+                        s["arrays"][i] = (np.array(s["arrays"][i]) + 1).tolist()
+                        s["arrays2"][i] = s["arrays"][i]
             for cache in (True, False):
-                specs = [instantiate(members[m], api, rng, np, cache=cache) for m, api in zip(sq, apis_here)]
-                # constants pool: the alternative constant
-                for s in specs:
-                    if s.get("alt_constant"):
-                        for i in s["constants"]:
-                            s["arrays"][i] = (np.array(s["arrays"][i]) + 1).tolist()
-                            s["arrays2"][i] = s["arrays"][i]
+                # the very same calls (same arrays), with caching on and then off
+                specs = specs_on if cache else [dict(s, cache=False) for s in specs_on]
                 try:
                     results = exec_sequence(specs, clear=True)
                 except Exception as ex:
@@ -1352,9 +1504,16 @@ def run(ctx):
             # caching on vs off, call by call: same outcome kind and same dtype
             if known_key is None and True in by_cache and False in by_cache:
                 for i, (rc, ru) in enumerate(zip(by_cache[True][1], by_cache[False][1])):
-                    if bool(rc.get("exc")) != bool(ru.get("exc")) or rc.get("dtype") != ru.get("dtype"):
-                        ctx.fail("C13 %s: call %d differs with caching on (%s, dtype %s) and off (%s, dtype %s)" % (
-                            pname, i, rc.get("exc") or "ok", rc.get("dtype"), ru.get("exc") or "ok", ru.get("dtype")),
+                    differs = (bool(rc.get("exc")) != bool(ru.get("exc")) or rc.get("dtype") != ru.get("dtype")
+                               or rc.get("desc") != ru.get("desc"))
+                    if not differs and not rc.get("exc"):
+                        for kk in ("value", "value2", "value3"):
+                            if kk in rc and not _same_value(rc[kk], ru.get(kk), np):
+                                differs = True
+                    if differs:
+                        ctx.fail("C13 %s: call %d differs with caching on (%s, %s) and off (%s, %s)" % (
+                            pname, i, rc.get("exc") or "ok", rc.get("desc") or rc.get("dtype"),
+                            ru.get("exc") or "ok", ru.get("desc") or ru.get("dtype")),
                             {"pool": pname, "failing_call": i, "sequence": by_cache[True][0],
                              "results_cache_on": by_cache[True][1], "results_cache_off": by_cache[False][1]})
                         break
